@@ -180,6 +180,27 @@ func (s *Sched) Run() {
 		<-s.back
 		raceEnable()
 	}
+	if s.Deadlock == "" && !s.Capped {
+		// every task returned: a lock that is still held now is held for ever
+		// (the next transaction, or Close, would block)
+		leak := -1
+		for _, ls := range s.locks {
+			if (ls.writer != nil || len(ls.readers) > 0) && (leak < 0 || ls.id < leak) {
+				leak = ls.id
+			}
+		}
+		if leak >= 0 {
+			for _, ls := range s.locks {
+				if ls.id == leak {
+					who := "readers"
+					if ls.writer != nil {
+						who = "writer " + ls.writer.Name
+					}
+					s.Deadlock = fmt.Sprintf("lock leak: lock #%d is still held (%s) although every task has returned; the next Lock on it blocks for ever", ls.id, who)
+				}
+			}
+		}
+	}
 	s.cur = nil
 	s.active = false
 }
